@@ -213,4 +213,4 @@ def register_dispatcher(reg, S):
                     Ghost("logger.warning(_unparsable_line_msg_tmpl.format(line, [t.__qualname__ for t in types]))", "g_at = append(g_at, -1)")],
             loops={0: LoopSpec(invariants=dispatcher_clauses(reg, paths, inv_lists, "_it"))},
             map_keys={"m": keys},
-            props=["C07", "C08", "C09", "C14", "C18"]))
+            props=["C07", "C08", "C09", "C14", "C18"] + {"sync": ["C01", "C15"], "instrument": ["C02", "C03", "C04", "C05"], "globalevents": []}[label]))
